@@ -9,8 +9,8 @@ HARNESS = dict(name="log", source="log.cpp",
 
 
 def item(kind, text, lid=0):
-    if kind == "L":
-        return "L%d.%s" % (lid, hexs(text))
+    if kind in ("L", "M"):
+        return "%s%d.%s" % (kind, lid, hexs(text))
     return kind + hexs(text)
 
 
@@ -30,7 +30,9 @@ def lcase(ptag, minsev, fid, members, ops):
 
 ITEM_PATTERNS = [[], ["s"], ["L"], ["s", "L"], ["L", "s"], ["i", "c", "d"], ["L", "L"], ["s", "i", "L", "s"], ["p", "L", "d"],
                  # x: a value whose inserter leaves the statement's stream in the failed state
-                 ["s", "x", "L", "s"], ["x", "L", "L"], ["L", "x", "s"]]
+                 ["s", "x", "L", "s"], ["x", "L", "L"], ["L", "x", "s"],
+                 # M: a callable with a non-const call operator which could also be printed as a value
+                 ["M"], ["s", "M", "L"], ["M", "M", "d"]]
 
 
 def mk_items(pattern, base):
@@ -48,6 +50,8 @@ def mk_items(pattern, base):
             out.append(item("d", ["1.5", "-0.25", "100", "0"][(base + k) % 4]))
         elif kind == "x":
             out.append(item("x", ""))
+        elif kind == "M":
+            out.append(item("M", "mz%d" % k, 10 * (base % 7) + k))
         else:
             out.append(item("L", "lz%d" % k, 10 * (base % 7) + k))
     return out
@@ -118,7 +122,7 @@ def gen_log(ptag, tier, rng):
                               rng.choice([sa, (sa + 1) % 6]), rng.choice([None, "b"]),
                               mk_items([rng.choice("sLd") for _ in range(rng.below(4))], rng.below(1000))))
             else:
-                pat = [rng.choice("ssLLicdp") for _ in range(rng.below(6))]
+                pat = [rng.choice("ssLLicdpM") for _ in range(rng.below(6))]
                 n = len(pat)
                 form = rng.choice(["e", "ue"] + ["n%d" % k for k in range(n + 1)] + ["un%d" % k for k in range(n + 1)])
                 ops.append(st(rng.below(6), rng.choice([None, "t", "tag two", ""]), form, mk_items(pat, rng.below(1000))))
